@@ -18,9 +18,22 @@ namespace
     {
         auto r = right.data<d_array>();
         std::stringstream sstream;
-        for (auto& it : *r)
+        for (size_t i = 0; i < r->size(); i++)
         {
-            sstream << it.data<d_string, std::string>();
+            auto it = r->at(i);
+            if (it.is<t_string>())
+            {
+                sstream << it.data<d_string, std::string>();
+            }
+            else if (it.is<t_text>())
+            {
+                sstream << it.data<d_text, std::string>();
+            }
+            else
+            {
+                runtime.__logmsg(err::ExpectedArrayTypeMissmatch(runtime.context_active().current_frame().diag_info_from_position(), i, std::array<sqf::runtime::type, 2>{ t_text(), t_string() }, it.type()));
+                return {};
+            }
         }
         return std::make_shared<d_text>(sstream.str());
     }
